@@ -1,12 +1,14 @@
 #!/bin/sh
 # tools/confirm_mutant.sh <worktree> <outdir> : confirm a seeded change (suite passes with it; demo fails with it, passes without)
+# (no git stash: refs/stash is shared by all worktrees of a repository)
 W="$1"; O="$2"
 cd "$W" || exit 2
+git diff > "$O/.confirm_patch.diff"
 rm -rf .nbcache
 PYTHONPATH=$W NUMBA_CACHE_DIR=$W/.nbcache /venv/bin/python -m pytest -q -p no:cacheprovider --timeout=900 tests > $O/confirm_tests.log 2>&1
 echo "tests_with_change: $(tail -1 $O/confirm_tests.log)"
 PYTHONPATH=$W NUMBA_DISABLE_JIT=1 /venv/bin/python $O/demo.py > $O/confirm_demo_with.log 2>&1; echo "demo_with_change rc=$?"
-git stash -q
+git checkout -q -- nucs
 PYTHONPATH=$W NUMBA_DISABLE_JIT=1 /venv/bin/python $O/demo.py > $O/confirm_demo_without.log 2>&1; echo "demo_without_change rc=$?"
-git stash pop -q
+git apply "$O/.confirm_patch.diff"
 rm -rf .nbcache
